@@ -252,4 +252,49 @@ theorem fold_sparse_eq_decoded (points : List Iup.Pt) (ends : List Nat) (sp : Op
         exact ih dts acc' (by simpa using hl) (by rw [e, stepAdd_length]; exact ha)
           (fun p hp => hd p (by simp [hp]))
 
+
+/-- the unscaled explicit deltas of a sparse tuple, per point (zero where the point is not listed) -/
+def listedDs (pts : List Nat) (xs ys : List Int) (np : Nat) : List Iup.Pt :=
+  (List.range np).map fun k =>
+    ((match lookupV (pts.zip xs) k with | some x => x | none => 0),
+     (match lookupV (pts.zip ys) k with | some y => y | none => 0))
+
+theorem scaledEx_eq (pts : List Nat) (xs ys : List Int) (s : Int) (np : Nat) :
+    scaledEx pts xs ys s np = (listedDs pts xs ys np).map fun d => (d.1 * s, d.2 * s) := by
+  unfold scaledEx listedDs
+  rw [List.map_map]
+  apply List.map_congr_left
+  intro k _
+  simp only [Function.comp]
+  cases lookupV (pts.zip xs) k <;> cases lookupV (pts.zip ys) k <;> simp
+
+/-- **well-formedness of a sparse tuple's packed streams, as skrifa reads them.**  The point-number
+data decodes to `pts` (all `count` of them), the two passes of `read_sparse_deltas` succeed and pair
+the points with `xs` / `ys` (true for every stream of valid runs, `sparse_fast_path_eq_iterator`),
+the values are within `±Δ`, and — the one real restriction — the point numbers are DISTINCT.
+Out-of-range point numbers are allowed: skrifa skips them (`deltas.get_mut(ix)` is `None`), and so
+does the decoded tuple.  A duplicate point number makes skrifa add that point's deltas twice, which
+no specification-level tuple describes: excluded here (`pts.Nodup`).  `dt` is the decoded tuple. -/
+def SparseWF (points : List Iup.Pt) (sp : Option (List Nat)) (Δ : Int) (ts : GvarData.RawTuple × Int) (dt : DTuple) : Prop :=
+  ts.1.allPoints sp = false ∧
+  ∃ pts xs ys bs rest,
+    PackedDeltas.ptIterOf (ts.1.ptsAndDeltas sp).1 = .list pts ∧
+    (PackedDeltas.countAndCountBytes (ts.1.ptsAndDeltas sp).1).1 = pts.length ∧
+    readSparse (pts.length + 1) 0 pts.length (.list pts) (ts.1.ptsAndDeltas sp).2 = some (pts.zip xs, bs) ∧
+    readSparse (pts.length + 1) 0 pts.length (.list pts) bs = some (pts.zip ys, rest) ∧
+    pts.Nodup ∧ xs.length = pts.length ∧ ys.length = pts.length ∧
+    (∀ v ∈ xs, -Δ ≤ v ∧ v ≤ Δ) ∧ (∀ v ∈ ys, -Δ ≤ v ∧ v ≤ Δ) ∧
+    dt = ⟨ts.2, listedDs pts xs ys points.length, listedFlags pts xs points.length⟩
+
+/-- a well-formed sparse tuple decodes: the fast path leaves the decoded tuple's buffer and flags -/
+theorem SparseWF.decodes (points : List Iup.Pt) (sp : Option (List Nat)) (Δ M : Int)
+    (ts : GvarData.RawTuple × Int) (dt : DTuple) (h : SparseWF points sp Δ ts dt)
+    (hM : 0 ≤ M) (hΔ : 0 ≤ Δ) (hMΔ : M + Δ ≤ 32767) (hs : 0 ≤ ts.2 ∧ ts.2 ≤ 65536)
+    (hpts : ∀ k, (-M ≤ (getP points k).1 ∧ (getP points k).1 ≤ M) ∧ (-M ≤ (getP points k).2 ∧ (getP points k).2 ≤ M)) :
+    SparseDecodes points sp ts dt := by
+  obtain ⟨h0, pts, xs, ys, bs, rest, h1, h2, h3, h4, h5, h6, h7, h8, h9, rfl⟩ := h
+  refine ⟨h0, ?_⟩
+  rw [accSparse_eq_workOf pts xs ys _ _ bs rest ts.2 points h2 h1 h3 h4 h5 h6 h7 M Δ hM hΔ hMΔ hs hpts h8 h9]
+  simp only [DTuple.work, scaledEx_eq]
+
 end FontVerif.GvarApply
